@@ -37,7 +37,7 @@ func init() {
 		ID: "C14",
 		Explanation: "Decided: (R1) which blocking primitives are synchronously reachable from Tell (effect analysis over the call graph): the remoting send path's dial, handshake, retry sleep, writes and wait are a KNOWN FINDING (Tell blocks while the peer is unreachable, contrary to the documented contract); any other blocking primitive is a violation; " +
 			"(R2) every failing exit of the send loop is reported (C03.R6) and an encode failure aborts the loop with the error; (R3) once a non-zero frame length was read the reader never re-arms without consuming exactly that many bytes — paths that do not consume kill the connection actor; (R4) the retry limit is clamped to >= 0, the retry loop exits on it, nothing reachable from a retry iteration writes the attempt counter, a stopped system aborts; " +
-			"(R5) a failed write / closed connection clears the cached connection before the retry, and non-EOF read errors kill the connection actor without re-arming; (R6) an undecodable frame re-arms the reader; (R7) because the clean-EOF exit leaves the old connection actor registered, the name under which a connection actor is spawned contains a per-socket component, so a re-dial to the same peer does not collide with it. (R8) the retry helper object, which carries the attempt counter and is reset whenever a send returns, is created fresh for every mailbox (the value stored into the mailbox's field is an allocation or a constructor result): the per-peer lock then protects it, and traffic to a healthy peer cannot reset the count of an unreachable one. (R4, addition) every return of the retry helper leaves the attempt counter reset (deferred reset registered on every path, or a reset on every path from an advance to a return); (R9 = C11.R3) the frame reader re-arms or terminates its connection on every path; (R10) the value handed to the connection's Write is the frame encoder's result on every attempt, never a re-slice or remainder. NOT decided: 'what it receives is a subsequence' under arbitrary cut points, duplicates after an ambiguous write error, recovery timing.",
+			"(R5) a failed write / closed connection clears the cached connection before the retry, and non-EOF read errors kill the connection actor without re-arming; (R6) an undecodable frame re-arms the reader; (R7) because the clean-EOF exit leaves the old connection actor registered, the name under which a connection actor is spawned contains a per-socket component, so a re-dial to the same peer does not collide with it. (R8) the retry helper object, which carries the attempt counter and is reset whenever a send returns, is created fresh for every mailbox (the value stored into the mailbox's field is an allocation or a constructor result): the per-peer lock then protects it, and traffic to a healthy peer cannot reset the count of an unreachable one. (R4, addition) every return of the retry helper leaves the attempt counter reset (deferred reset registered on every path, or a reset on every path from an advance to a return); (R9 = C11.R3) the frame reader re-arms or terminates its connection on every path; (R10) the value handed to the connection's Write is the frame encoder's result on every attempt, never a re-slice or remainder. (R11) no error of the transport package is dropped implicitly (bare call statements over the syntax tree). NOT decided: 'what it receives is a subsequence' under arbitrary cut points, duplicates after an ambiguous write error, recovery timing.",
 		Rules: []Rule{
 			{ID: "C14.R1", Min: 4, Desc: "Tell effect analysis (blocking primitives)", Fn: c14TellBlocks},
 			{ID: "C14.R2", Min: 3, Desc: "failure reported; encode failure aborts", Fn: c14Reported},
@@ -59,7 +59,7 @@ func init() {
 	register(&Property{
 		ID: "C15",
 		Explanation: "Decided: (R1) no registered reader/writer passes a value to the codec that it cannot represent (interface-typed refs, named basic types, unexported-only structs ...); (R2) every message type told by an actor-context operation is registered for the wire, or is told only to references taken from the local parent/child/target tables or to the actor itself; " +
-			"(R3) the mailbox lookup reaches the remoting mailbox for every non-local address whenever remoting is enabled and the system is not stopped; (R4) sender/receiver roles are preserved end to end so that Reply reaches the original sender (C11.R5); (R5) a nested message that the library itself may leave nil (the Message of a failure PipeResult) is guarded by a non-nil test in its writer, because a nil message can only take the user-codec path and fails without a codec (F30, fixed); (R6) the key under which Watch/Unwatch store a watcher depends on the watcher's address; R1 also rejects length prefixes narrower than 4 bytes for unbounded strings (long actor paths). (R8) a registered reader assigns an error-typed field of its message under an (in)equality test of the decoded code, never an ordering test (codes are signed, the catch-all code is negative); (R9 = C14.R4) a remote operation whose first attempt fails is retried within the full budget. NOT decided: the observable effect at the remote actor.",
+			"(R3) the mailbox lookup reaches the remoting mailbox for every non-local address whenever remoting is enabled and the system is not stopped; (R4) sender/receiver roles are preserved end to end so that Reply reaches the original sender (C11.R5); (R5) a nested message that the library itself may leave nil (the Message of a failure PipeResult) is guarded by a non-nil test in its writer, because a nil message can only take the user-codec path and fails without a codec (F30, fixed); (R6) the key under which Watch/Unwatch store a watcher depends on the watcher's address; R1 also rejects length prefixes narrower than 4 bytes for unbounded strings (long actor paths). (R8) a registered reader assigns an error-typed field of its message under an (in)equality test of the decoded code, never an ordering test (codes are signed, the catch-all code is negative); (R9 = C14.R4) a remote operation whose first attempt fails is retried within the full budget. (R10 = C12.R10) no error of the codec layer is dropped implicitly. NOT decided: the observable effect at the remote actor.",
 		Rules: []Rule{
 			{ID: "C15.R7", Min: 5, Desc: "pooled codec objects start clean: an encode failure of one message cannot poison the next remote operation (C12.R9)", Fn: c12Pools},
 			{ID: "C15.R6", Min: 4, Desc: "watcher identity includes the address", Fn: c15WatcherIdentity},
